@@ -6,6 +6,7 @@ DeadJoinDev == {"HandlerPanics", "DeadThreadFailsJoin"}
 HandlerDev == {"HandlerPanics"}
 PoisonDev == {"HandlerPanics", "HandlerPanicPoisons"}
 AbortDev == {"HugeMessageAborts"}
+EarlyDev == {"JoinGivesUpEarly"}
 BusyDev == {"UnboundedJoin"}
 RendezvousDev == AllDev \cup {"RendezvousSignal"}
 SelectDev == {"SignalPanicsDebugThread"}
